@@ -40,14 +40,19 @@ class SplitCase:
         out = E.Outcome()
         X = env.arr("X", (n, 2))
         y = env.arr("y", (n,))
-        ts = env.scalar("test_split", lo=0, hi=1)
-        vs = env.scalar("val_split", lo=0, hi=1) if sp["val"] else None
         perm = sp["perm"]
-        CTX.rng_perm = (lambda k: list(perm)) if perm is not None else None
-        try:
-            train, test, val = split_dataset(X, y, test_split=ts, val_split=vs, shuffle=perm is not None)
-        finally:
-            CTX.rng_perm = None
+        if sp.get("defaults"):
+            # the documented defaults: a fifth of the samples for testing, no validation set, order kept
+            ts, vs = 0.2, None
+            train, test, val = split_dataset(X, y)
+        else:
+            ts = env.scalar("test_split", lo=0, hi=1)
+            vs = env.scalar("val_split", lo=0, hi=1) if sp["val"] else None
+            CTX.rng_perm = (lambda k: list(perm)) if perm is not None else None
+            try:
+                train, test, val = split_dataset(X, y, test_split=ts, val_split=vs, shuffle=perm is not None)
+            finally:
+                CTX.rng_perm = None
         # reference: floor-rule sizes, consecutive slices of the (permuted) index list
         idx = list(perm) if perm is not None else list(range(n))
         nt = sfloor(ts * n)
@@ -189,6 +194,8 @@ def enumerate_specs(tier):
         for perm in perms:
             for val in (False, True):
                 specs.append({"kind": "split", "n": n, "perm": perm, "val": val})
+    for n in (4, 5, 10) if tier != "quick" else (5,):
+        specs.append({"kind": "split", "n": n, "perm": None, "val": False, "defaults": True})
     for n in range(1, (3 if tier == "quick" else 4) + 1):       # 5 labels have 541 weak orderings: beyond the path budget
         specs.append({"kind": "onehot", "n": n})
         if n <= (2 if tier == "quick" else 3):       # labels -2..2 (n <= 2) or -1..1 (n = 3, thorough)
